@@ -8,7 +8,7 @@ from props import PROPS, NOT_APPLICABLE
 ids = [json.loads(l)["id"] for l in open(os.path.join(ROOT, "properties.jsonl")) if l.strip()]
 checks = []
 for pid in ids:
-    if pid not in PROPS:
+    if pid not in PROPS or PROPS[pid].get('hold'):
         continue
     s = PROPS[pid]
     checks.append({
@@ -24,7 +24,7 @@ for pid in ids:
     })
 na = []
 for pid in ids:
-    if pid not in PROPS:
+    if pid not in PROPS or PROPS[pid].get('hold'):
         na.append({"property_id": pid, "reason": NOT_APPLICABLE.get(pid, "not claimed yet: no model, theorem and correspondence check have been built for this property in this development so far (see DESIGN.md section 6 for the plan)")})
 hooks_commits = []
 hp = os.path.join(ROOT, "HOOK_COMMITS.txt")
